@@ -125,11 +125,11 @@ Ltac solve_form :=
       | apply dom_quo_val; assumption
       | reflexivity
       | (destruct Hp as (Hp & Hfit); rewrite op_mod_ul_wrap by assumption; apply to_i64_id; exact Hfit)
-      | (destruct Hp as (Hp & Hfit); rewrite op_mod_u_wrap by assumption; apply to_i32_id; exact Hfit)
-      | (destruct Hp as (Hp & Hfit); rewrite op_mod_us_wrap by assumption; unfold in_i16 in Hfit; cint'; lia)
+      | apply op_mod_u_val; assumption
+      | apply op_mod_us_val; assumption
       | apply op_mod_Tuc_val; assumption
-      | (destruct Hp as (Hp & Hfit & Hrnd); rewrite op_mod_d_wrap by assumption; rewrite to_i64_id by exact Hfit; exact Hrnd)
-      | (destruct Hp as (Hp & Hfit & Hrnd); rewrite op_mod_dx_wrap by assumption; rewrite to_i64_id by exact Hfit; exact Hrnd)
+      | apply op_mod_d_val; assumption
+      | apply op_mod_dx_val; assumption
       | (f_equal; apply isDivisor_val) ] ].
 
 Lemma forms_meet_spec : Forall Form_meets_spec forms.
@@ -154,8 +154,9 @@ Definition meets (k : conv) (n d : Z) (out : list Z) : Prop :=
   | KExact, [q] => n = d * q
   | KAbsTr, [w] => exists r, trunc_remainder n d r /\ w = Z.abs r
   | KAbsCr, [w] => exists r, ceil_remainder n d r /\ w = Z.abs r
-  | KTrFit64, [r] | KTrFit32, [r] | KTrFit16, [r] | KTrDbl, [r] => trunc_remainder n d r
-  | KTrDblx, [r] => trunc_remainder n (Z.quot d 16) r
+  | KTrFit64, [r] => trunc_remainder n d r
+  | KTrDbl, [w] => exists r, trunc_remainder n d r /\ w = trunc53 r /\ Z.abs w < Z.abs d /\ 0 <= n * w /\ (trunc53 r = r -> w = r)
+  | KTrDblx, [w] => exists r, trunc_remainder n (Z.quot d 16) r /\ w = trunc53 r /\ Z.abs w < Z.abs (Z.quot d 16) /\ 0 <= n * w /\ (trunc53 r = r -> w = r)
   | KIsDiv, [b] => (b = 1 \/ b = 0) /\ (b = 1 <-> exists k, n = d * k)
   | _, _ => False
   end.
@@ -176,10 +177,12 @@ Proof.
   - exists (trem n d). split; [exists (tquo n d); apply tspec; assumption|reflexivity].
   - exists (crem n d). split; [exists (cquo n d); apply cspec; assumption|reflexivity].
   - exists (tquo n d). apply tspec; tauto.
-  - exists (tquo n d). apply tspec; tauto.
-  - exists (tquo n d). apply tspec; tauto.
-  - exists (tquo n d). apply tspec; tauto.
-  - exists (tquo n (Z.quot d 16)). apply tspec; tauto.
+  - exists (trem n d). pose proof (percent_double n d 0 ltac:(lia)) as P. cbv zeta in P. change (2 ^ 0) with 1 in P.
+    rewrite Z.quot_1_r in P. destruct (P Hp) as (P1 & P2 & P3 & _). fold (op_mod_d n d) in *. rewrite P1 in P2, P3. unfold trem.
+    split; [exists (tquo n d); apply tspec; assumption|]. repeat split; (assumption || (intro X; exact X) || idtac).
+  - exists (trem n (Z.quot d 16)). pose proof (percent_double n d 4 ltac:(lia)) as P. cbv zeta in P. change (2 ^ 4) with 16 in P.
+    destruct (P Hp) as (P1 & P2 & P3 & _). rewrite P1 in P2, P3. unfold trem.
+    split; [exists (tquo n (Z.quot d 16)); apply tspec; assumption|]. repeat split; (assumption || (intro X; exact X) || idtac).
   - rewrite <- isDivisor_val. split; [destruct (dom_isDivisor n d); [left|right]; reflexivity|].
     rewrite <- (isDivisor_spec n d). destruct (dom_isDivisor n d); cbn [Z.b2z]; split; intro H; (reflexivity || discriminate || lia).
 Qed.
@@ -442,7 +445,7 @@ Example table_examples :
   List.In (F1 "trem.ul"%string KTr TZ Tu64 trem_ul) forms /\ in_ty Tu64 (W64 - 1) /\ pre KTr (W64 - 2) (W64 - 1) /\
   fsem (F1 "trem.ul"%string KTr TZ Tu64 trem_ul) (W64 - 2) (W64 - 1) = [W64 - 2] /\
   fsem (F1 "op%.ul"%string KTrFit64 TZ Tu64 op_mod_ul) (W64 - 2) (W64 - 1) = [-2] (* finding: not the remainder *) /\
-  pre KTrFit64 (H64 - 1) (W64 - 1) /\ pre KTrDbl (2 ^ 60) (2 ^ 61) /\ pre KExact 14 (-7) /\
+  pre KTrFit64 (H64 - 1) (W64 - 1) /\ pre KExact 14 (-7) /\
   fsem (F1 "mod.ul"%string KEr TZ Tu64 mod_ul) 0 7 = [0] /\ List.length forms = 149%nat /\
   round53 (2 ^ 53 + 1) = 2 ^ 53 /\ round53 (2 ^ 53 + 3) = 2 ^ 53 + 4 /\ round53 (- (2 ^ 63 - 1)) = - 2 ^ 63 /\
   dom_isDivisor (-14) (-7) = true /\ dom_divexact (-14) (-7) = 2.
@@ -459,15 +462,21 @@ Qed.
    These are the refutations of the property's clause for those overloads; Percent_narrow_wrap_stmt / Percent_double_stmt say
    what the code returns instead. *)
 Definition Percent_narrow_return_refuted_stmt : Prop :=
-  (exists n d, in_u64 d /\ d <> 0 /\ op_mod_ul n d <> Z.rem n d /\ op_mod_ul n d * n < 0) /\     (* int64_t  operator%(uint64_t) *)
-  (exists n d, in_u32 d /\ d <> 0 /\ op_mod_u n d <> Z.rem n d /\ op_mod_u n d * n < 0) /\       (* int32_t  operator%(uint32_t) *)
-  (exists n d, in_u16 d /\ d <> 0 /\ op_mod_us n d <> Z.rem n d /\ op_mod_us n d * n < 0) /\     (* int16_t  operator%(uint16_t) *)
-  (exists n d, d <> 0 /\ Z.abs d < W64 /\ round53 d = d /\ op_mod_d n d * n < 0) /\              (* double operator%(double), |l| > 2^63 *)
-  (exists n d, d <> 0 /\ Z.abs d < H64 /\ round53 d = d /\ op_mod_d n d = d).                    (* ... and |l| <= 2^63: result = l, not |r| < |l| *)
+  (* LIVE: int64_t operator%(uint64_t) - the known finding *)
+  (exists n d, in_u64 d /\ d <> 0 /\ op_mod_ul n d <> Z.rem n d /\ op_mod_ul n d * n < 0) /\
+  (* LIVE: double operator%(double) is not exact when the remainder is not a double (inherent in the return type) *)
+  (exists n d, d <> 0 /\ op_mod_d n d <> Z.rem n d) /\
+  (* HISTORY: the bodies before e502f6c (uint32_t -> int32_t, uint16_t -> int16_t) and before 2c6554a (double through int64_t,
+     rounded to nearest): wrong sign; a double result equal to the divisor *)
+  (exists n d, in_u32 d /\ d <> 0 /\ op_mod_u_old n d <> Z.rem n d /\ op_mod_u_old n d * n < 0) /\
+  (exists n d, in_u16 d /\ d <> 0 /\ op_mod_us_old n d <> Z.rem n d /\ op_mod_us_old n d * n < 0) /\
+  (exists n d, d <> 0 /\ Z.abs d < W64 /\ round53 d = d /\ op_mod_d_old n d * n < 0) /\
+  (exists n d, d <> 0 /\ Z.abs d < H64 /\ round53 d = d /\ op_mod_d_old n d = d).
 Lemma percent_narrow_return_refuted : Percent_narrow_return_refuted_stmt.
 Proof.
   unfold Percent_narrow_return_refuted_stmt. repeat apply conj.
   - exists (W64 - 2), (W64 - 1). vm_compute. repeat split; (discriminate || reflexivity || (intro; discriminate)).
+  - exists (2 ^ 53 + 1), (2 ^ 60). vm_compute. repeat split; (discriminate || reflexivity || (intro; discriminate)).
   - exists 3000000000, 4000000000. vm_compute. repeat split; (discriminate || reflexivity || (intro; discriminate)).
   - exists 40000, 50000. vm_compute. repeat split; (discriminate || reflexivity || (intro; discriminate)).
   - exists H64, (W64 - 2048). vm_compute. repeat split; (discriminate || reflexivity || (intro; discriminate)).
